@@ -140,3 +140,6 @@ def fill(ENV):
     ENV['binascii'] = codecmodel.binascii_env
     ENV['base64'] = codecmodel.base64_env
     ENV['decimal'] = codecmodel.decimal_env
+    from . import cryptomodel
+    ENV['Crypto.Hash'] = cryptomodel.hash_env
+    ENV['Crypto.Cipher'] = cryptomodel.cipher_env
